@@ -736,7 +736,7 @@ class TorState(object):
             return None
 
         if stream.target_host is not None \
-           and '.exit' in stream.target_host:
+           and stream.target_host.endswith('.exit'):
             # we want to totally ignore .exit URIs as these are
             # used to specify a particular exit node, and trying
             # to do STREAMATTACH on them will fail with an error
